@@ -1434,6 +1434,37 @@ pub fn tcfg(g: &mut Gen, r: &mut Rng, bases: &[u8], widths: &[usize], per_cfg_ke
             g.shape(&tr);
             g.op("ser 0".into());
             g.op("iter 0".into());
+            // `clone_from` into an EXISTING tree built with ANOTHER level base and other content: the
+            // destination must become interchangeable with the source (base included)
+            {
+                let other = if base == 2 { 16 } else { 2 };
+                g.op(format!("new 9 {other} n={n}"));
+                for (key, kd) in kd_of.iter().take(2) {
+                    let vd: Vec<u8> = (0..n).map(|_| r.below(256) as u8).collect();
+                    g.op(format!("ups 9 {} {} {}", xtok(key), xtok(kd), xtok(&vd)));
+                }
+                if r.chance(1, 2) {
+                    g.op("hash 9".into());
+                }
+                g.op("clonefrom 9 0".into());
+                g.note("clone_from:table");
+                for i in 0..3 {
+                    let key = vec![0xf1, i as u8];
+                    let kd = digest_for_level(r.below((2 * n as u64).min(4)) as u32, base.max(2), n, 0x31 + 2 * i as u8);
+                    let vd: Vec<u8> = (0..n).map(|_| r.below(256) as u8).collect();
+                    g.op(format!("ups 0 {} {} {}", xtok(&key), xtok(&kd), xtok(&vd)));
+                    g.op(format!("ups 9 {} {} {}", xtok(&key), xtok(&kd), xtok(&vd)));
+                    g.op(format!("ups 2 {} {} {}", xtok(&key), xtok(&kd), xtok(&vd)));
+                    if dep {
+                        g.op(format!("ups 1 {} {} {}", xtok(&key), xtok(&kd), xtok(&vd)));
+                    }
+                }
+                g.op("hash 0".into());
+                g.op("hash 9".into());
+                g.op("trav 9 -".into());
+                g.op("diff2 0 9".into());
+                g.op("same 0 9".into());
+            }
             // a clone is interchangeable with its original: continue both with the same upserts
             g.op("clone 5 0".into());
             for i in 0..4 {
@@ -1479,6 +1510,11 @@ pub fn tcfg(g: &mut Gen, r: &mut Rng, bases: &[u8], widths: &[usize], per_cfg_ke
                 }
                 g.cases += 1;
                 g.note(&format!("cfg:{}:{key_kind}", &kind[..6]));
+                // tree 8: ANOTHER seed and base; it receives `clone_from(tree 0)` half-way
+                let seed2: [u8; 16] = core::array::from_fn(|i| (i as u8).wrapping_mul(29).wrapping_add(base));
+                let other = if base == 4 { 16 } else { 4 };
+                g.op(format!("new 8 {other} n=16 kind=sipseed:{} ctor=builder key={key_kind}", hex(&seed2)));
+                let mut cloned_from = false;
                 let mut seen = BTreeSet::new();
                 for i in 0..per_cfg_keys * 2 {
                     let key: Vec<u8> = match key_kind {
@@ -1496,10 +1532,30 @@ pub fn tcfg(g: &mut Gen, r: &mut Rng, bases: &[u8], widths: &[usize], per_cfg_ke
                     for ti in 0..ctors.len() {
                         g.op(format!("ups {ti} {} {} {} val={}", xtok(&key), xtok(&kd), xtok(&vd), xtok(&val)));
                     }
+                    // the digests the stored hasher computes, compared with the model's SipHasher
+                    g.op(format!("hdig 0 {} {}", xtok(&key), xtok(&val)));
+                    if !cloned_from {
+                        // before the clone_from tree 8 hashes with ITS OWN seed
+                        let (kd8, vd8) = g.exec.trees[&8].tree.as_ref().unwrap().digests(&key, &val).unwrap();
+                        g.op(format!("ups 8 {} {} {} val={}", xtok(&key), xtok(&kd8), xtok(&vd8), xtok(&val)));
+                        g.op(format!("hdig 8 {} {}", xtok(&key), xtok(&val)));
+                        if i == per_cfg_keys {
+                            if r.chance(1, 2) {
+                                g.op("hash 8".into());
+                            }
+                            g.op("clonefrom 8 0".into());
+                            g.note("clone_from:sip");
+                            cloned_from = true;
+                        }
+                    } else {
+                        g.op(format!("ups 8 {} {} {} val={}", xtok(&key), xtok(&kd), xtok(&vd), xtok(&val)));
+                    }
                     if r.chance(1, 6) {
                         g.op("hash 0".into());
                     }
                 }
+                g.op("hash 8".into());
+                g.op("trav 8 -".into());
                 let mut roots = vec![];
                 for ti in 0..ctors.len() {
                     roots.push(g.op(format!("hash {ti}")));
@@ -1513,6 +1569,9 @@ pub fn tcfg(g: &mut Gen, r: &mut Rng, bases: &[u8], widths: &[usize], per_cfg_ke
                     g.op(format!("diff2 0 {ti}"));
                     g.op(format!("same 0 {ti}"));
                 }
+                g.op("hash 0".into());
+                g.op("diff2 0 8".into());
+                g.op("same 0 8".into());
             }
         }
     }
